@@ -150,3 +150,25 @@ Theorem C02_map_keys_merge_laws {V O E} (vo : valops V O E) (H : list (oprec (mo
     /\ kabs (mmerge vo s1 s2) = omerge (kabs s1) (kabs s2).
 Proof. exact (map_keys_merge_laws vo H). Qed.
 Print Assumptions C02_map_keys_merge_laws.
+
+(** Map<K, Orswot> whose keys are never removed: merge is commutative, associative and idempotent (Leibniz equality of complete
+    states) on all states reachable through per-actor delivery, duplicates and merges (proofs/MapOrswotNK.v) *)
+From Crdt Require Import model.Orswot model.Map spec.System spec.OrswotSpec spec.OrswotSystem spec.MapSpec spec.MapSystem spec.MapOrswotSpec proofs.MapOrswotNK proofs.MapOrswotNKCor.
+Theorem C02_mapor_nk_merge_comm (H : list (oprec (mop oop))) :
+  mohist_ok_nk H -> forall (s1 : cmap orswot) (K1 : gset nat) (s2 : cmap orswot) (K2 : gset nat),
+  moreach_nk H s1 K1 -> moreach_nk H s2 K2 ->
+  mmerge orswot_valops s1 s2 = mmerge orswot_valops s2 s1.
+Proof. exact (mapor_merge_comm_nk H). Qed.
+Print Assumptions C02_mapor_nk_merge_comm.
+
+Theorem C02_mapor_nk_merge_assoc (H : list (oprec (mop oop))) :
+  mohist_ok_nk H -> forall (s1 : cmap orswot) (K1 : gset nat) (s2 : cmap orswot) (K2 : gset nat) (s3 : cmap orswot) (K3 : gset nat),
+  moreach_nk H s1 K1 -> moreach_nk H s2 K2 -> moreach_nk H s3 K3 ->
+  mmerge orswot_valops (mmerge orswot_valops s1 s2) s3 = mmerge orswot_valops s1 (mmerge orswot_valops s2 s3).
+Proof. exact (mapor_merge_assoc_nk H). Qed.
+Print Assumptions C02_mapor_nk_merge_assoc.
+
+Theorem C02_mapor_nk_merge_idem (H : list (oprec (mop oop))) :
+  mohist_ok_nk H -> forall (s : cmap orswot) (K : gset nat), moreach_nk H s K -> mmerge orswot_valops s s = s.
+Proof. exact (mapor_merge_idem_nk H). Qed.
+Print Assumptions C02_mapor_nk_merge_idem.
